@@ -94,6 +94,8 @@ class UpdateTaskState(Unit):
             "the workflow machine is consulted with an event carrying exactly the status of the reporting task's latest record"},
         "C05.sep.record_creation": {"props": ["C05", "C18", "C07"], "text":
             "the containers stored in a newly created record are not shared with a staged entry that remains staged"},
+        "C05.sep.staged_vs_records": {"props": ["C05", "C18"], "text":
+            "at exit no staged entry shares its context-pointer list, back-reference dict or retry settings with any execution record"},
         "C06.uts.ctx_indices": {"props": ["C06"], "text":
             "contexts grows by exactly one delta per true transition with a non-empty publish; a new entry gets record.ctxs.in + [delta], an existing one is extended by that list minus the root"},
         "C04.uts.late_report_absorbed": {"props": ["C04"], "text":
@@ -490,6 +492,13 @@ class UpdateTaskState(Unit):
                     if x["id"] == r["id"] and x["route"] == r["route"]:
                         O("C05.sep.record_creation", r["ctxs"]["in"] is not x["ctxs"]["in"] and r["prev"] is not x["prev"])
             O("C05.sep.record_creation", True)
+            shared = False
+            for x in staged:
+                for r in sequence:
+                    if x["ctxs"]["in"] is r["ctxs"]["in"] or x["prev"] is r["prev"] or \
+                            (x.get("retry") is not None and x.get("retry") is r.get("retry")):
+                        shared = True
+            O("C05.sep.staged_vs_records", not shared)
             # context indices
             n_delta = len([i for i in true_idx if pub.get(i) == "delta"]) if completed_now and not retried else 0
             O("C06.uts.ctx_indices", len(contexts) - len(snap_ctx) == n_delta)
